@@ -15,7 +15,7 @@ Print Assumptions C03_lj_sum_formula.
 
 Theorem C03_lj_score_formula :
   forall st : ljstateR, lj_score NumR rpowi st = Some (- (incell_sum st + / 2 * image_sum st) /
-    INR (length (l_syms NumR st)))%R.
+    INR (lj_copies st))%R.
 Proof. exact lj_score_formula. Qed.
 Print Assumptions C03_lj_score_formula.
 
@@ -47,9 +47,9 @@ Proof. exact shell_indices_spec. Qed.
 Print Assumptions C03_shell_indices_spec.
 
 Theorem C03_lj_score_site_shift :
-  forall (st : ljstateR) (n m : Z), Forall int_sym (l_syms NumR st) -> lj_score NumR rpowi {|
-    l_syms := l_syms NumR st; l_site := shift_site (l_site NumR st) n m; l_cell := l_cell NumR
-    st; l_shape := l_shape NumR st |} = lj_score NumR rpowi st.
+  forall (st : ljstateR) (ss' : list siteR), Forall int_sym (l_syms NumR st) -> shifted (l_sites
+    NumR st) ss' -> lj_score NumR rpowi {| l_syms := l_syms NumR st; l_sites := ss'; l_cell :=
+    l_cell NumR st; l_shape := l_shape NumR st |} = lj_score NumR rpowi st.
 Proof. exact lj_score_site_shift. Qed.
 Print Assumptions C03_lj_score_site_shift.
 
@@ -61,8 +61,7 @@ Print Assumptions C03_image_sum_window_independent.
 
 Theorem C03_lj_score_is_infinite_lattice_sum :
   forall (st : ljstateR) (X rho : R), lj_wf st X rho -> forall k : Z, (3 <= k)%Z -> lj_score
-    NumR rpowi st = Some (- (incell_sum st + / 2 * image_sum_k st k) / INR (length (l_syms NumR
-    st)))%R.
+    NumR rpowi st = Some (- (incell_sum st + / 2 * image_sum_k st k) / INR (lj_copies st))%R.
 Proof. exact lj_score_is_infinite_lattice_sum. Qed.
 Print Assumptions C03_lj_score_is_infinite_lattice_sum.
 
@@ -89,12 +88,11 @@ Proof. exact lj_score_origin_shift. Qed.
 Print Assumptions C03_lj_score_origin_shift.
 
 Theorem C03_lj_score_moved_origin :
-  forall (st : ljstateR) (h : R * R) (X rho : R), let st' := @mkLjstate NumR (l_syms NumR st)
-    (@mkSite NumR (s_x NumR (l_site NumR st) + @fst R R h)%R (s_y NumR (l_site NumR st) + @snd R
-    R h)%R (s_cos NumR (l_site NumR st)) (s_sin NumR (l_site NumR st))) (l_cell NumR st)
-    (l_shape NumR st) in like (l_shape NumR st) -> lj_wf st X rho -> lj_wf st' X rho -> (forall
-    sym : tfR, @In tfR sym (l_syms NumR st) -> fixes_mod_lattice sym h) -> lj_score NumR rpowi
-    st' = lj_score NumR rpowi st.
+  forall (st : ljstateR) (h : R * R) (X rho : R), let st' := {| l_syms := l_syms NumR st;
+    l_sites := map (move_site h) (l_sites NumR st); l_cell := l_cell NumR st; l_shape := l_shape
+    NumR st |} in like (l_shape NumR st) -> lj_wf st X rho -> lj_wf st' X rho -> (forall sym :
+    tfR, In sym (l_syms NumR st) -> fixes_mod_lattice sym h) -> lj_score NumR rpowi st' =
+    lj_score NumR rpowi st.
 Proof. exact lj_score_moved_origin. Qed.
 Print Assumptions C03_lj_score_moved_origin.
 
@@ -108,7 +106,13 @@ Print Assumptions C03_half_vectors_are_fixed.
 Theorem C03_score_through_total :
   forall (st : ljstateR) (X rho : R), lj_wf st X rho -> like (l_shape NumR st) -> forall k : Z,
     (3 <= k)%Z -> lj_score NumR rpowi st = Some (- (/ 2 * Tot (l_cell NumR st) (l_shape NumR st)
-    (lj_relative NumR st) k) / INR (length (l_syms NumR st)))%R.
+    (lj_relative NumR st) k) / INR (lj_copies st))%R.
 Proof. exact score_through_total. Qed.
 Print Assumptions C03_score_through_total.
+
+
+Theorem C03_lj_relative_length :
+  forall st : ljstateR, length (lj_relative NumR st) = lj_copies st.
+Proof. exact lj_relative_length. Qed.
+Print Assumptions C03_lj_relative_length.
 
